@@ -136,7 +136,19 @@ func (P *Program) FindFunc(pkgPath, key string) *ssa.Function {
 }
 
 // FuncKey computes the contract lookup key of an SSA function.
+func stripTypeArgs(name string) string {
+	if k := strings.Index(name, "["); k >= 0 {
+		return name[:k]
+	}
+	return name
+}
+
 func FuncKey(fn *ssa.Function) (pkgPath, key string) {
+	pkgPath, key = funcKey0(fn)
+	return pkgPath, key
+}
+
+func funcKey0(fn *ssa.Function) (pkgPath, key string) {
 	if fn.Pkg != nil {
 		pkgPath = fn.Pkg.Pkg.Path()
 	} else if fn.Object() != nil && fn.Object().Pkg() != nil {
@@ -157,11 +169,11 @@ func FuncKey(fn *ssa.Function) (pkgPath, key string) {
 			}
 		}
 		if ptr {
-			return pkgPath, "(*" + name + ")." + fn.Name()
+			return pkgPath, "(*" + name + ")." + stripTypeArgs(fn.Name())
 		}
-		return pkgPath, "(" + name + ")." + fn.Name()
+		return pkgPath, "(" + name + ")." + stripTypeArgs(fn.Name())
 	}
-	return pkgPath, fn.Name()
+	return pkgPath, stripTypeArgs(fn.Name())
 }
 
 func (P *Program) pkgHasSpecs(pkg string) bool {
